@@ -3,6 +3,8 @@ mod driver;
 mod htmlgen;
 mod prng;
 mod w2;
+mod w2d;
+mod w2t;
 
 use crate::core::*;
 use crate::driver::*;
@@ -13,6 +15,8 @@ macro_rules! with_world {
     ($name:expr, $func:ident $(, $arg:expr)*) => {
         match $name {
             "W2" => $func::<w2::W2>($($arg),*),
+            "W2T" => $func::<w2t::W2T>($($arg),*),
+            "W2D" => $func::<w2d::W2D>($($arg),*),
             other => {
                 eprintln!("unknown world {other}");
                 std::process::exit(2);
@@ -60,6 +64,23 @@ fn plan(prop: &str, tier: Tier) -> Option<Plan> {
             assumptions: vec![
                 "flate2 / brotli reader-side decoders and encoders are trusted as independent codecs (the library uses the writer-side types)",
                 "the plain reference is the same real filter code on the decompressed body in one chunk, as the property states",
+            ],
+        },
+        "C16" => Plan {
+            level: "fault_enumeration",
+            batches: vec![b("W2T", "docs", 4000, 120000), b("W2T", "bytes", 20000, 600000), b("W2T", "big", 16, 64)],
+            assumptions: vec![
+                "truncation and late-join points are enumerated per buffer; documents, byte strings and corruption positions are sampled",
+                "the property's 'exhaustively for all strings up to length 7' is bounded enumeration (model checking) and is deliberately not done here",
+                "built with the sim profile (opt-level 2, overflow checks on for the library): the per-byte recursion of the script-data states is compiled to a loop; unoptimised builds overflow the stack at about 1 MB of script (DESIGN §5)",
+            ],
+        },
+        "C15" => Plan {
+            level: "exploration",
+            batches: vec![b("W2D", "dom", 6000, 150000)],
+            assumptions: vec![
+                "R-dom reference edit (DESIGN appendix A.3): selectors limited to tag, tag.class, tag[attr=\"v\"] that the reference evaluates on its own tree; html/head/body are not selector subjects",
+                "documents satisfy the statement's precondition by construction (path tags unique, replace targets only repeated as siblings)",
             ],
         },
         _ => return None,
